@@ -74,7 +74,7 @@ ScShape == {[mode |-> "shape", sh |-> sh] : sh \in {x \in Shapes : (x.len < 2) <
 Quick(u) == ScGP(GPCfgsQuick, Pool, 3) \cup ScGP(GPCfgsAll, {P1, P2, P5, P9}, 2) \cup ScScale(Pool \cup {P9}, 2)
             \cup ScScale({P1, P2, P4, P6}, 3) \cup ScMG(2, 1) \cup ScDrop(3) \cup ScPass(3) \cup ScShape
 Thorough(u) == ScGP(GPCfgsQuick, Pool \cup {P9}, 3) \cup ScGP(GPCfgsAll, Pool \cup {P9}, 2)
-               \cup ScGP(GPCfgsAll, {P1, P2, P5, P6}, 3) \cup ScScale(Pool \cup {P9}, 3)
+               \cup ScGP(GPCfgsAll, {P1, P5, P6}, 3) \cup ScScale(Pool \cup {P9}, 3)
                \cup ScMG(3, 1) \cup ScMG(1, 2) \cup ScDrop(4) \cup ScPass(4) \cup ScShape
 Tiny(u) == ScGP(GPCfgsQuick, {P1, P5}, 2) \cup ScShape
 Scenarios == CASE U = "quick" -> Quick(U) [] U = "thorough" -> Thorough(U) [] U = "tiny" -> Tiny(U)
